@@ -1,4 +1,5 @@
 import GqlProofs.ParserErrPos
+import GqlProofs.ParserLocal
 import GqlProofs.ParserSound
 import GqlProofs.ParserComplete
 /-! # C18, syntax clause — where the parser reports a syntax error
@@ -44,7 +45,7 @@ theorem syntax_error_at_token_start (toks : List Token) (eofPos pos : Nat) (b : 
 theorem value_error_at_token_start (c : Bool) (toks : List Token) (eofPos pos : Nat) (b : Bool) (l : Nat)
     (h : parseValue c (initState toks eofPos) = .error (.syntax pos b l)) :
     ∃ k, k ≤ toks.length ∧ pos = (match toks.drop k with | t :: _ => t.start | [] => eofPos) :=
-  ((inferInstance : ErrAt (parseValue c)).err _ _ _ _ h).1
+  ((inferInstance : ErrAt (parseValue c)).err _ _ _ _ h).atToken
 
 /-- `parseType` has no failing path: a malformed type reference is never reported where it occurs (D-03b) -/
 theorem type_reference_reports_no_error (σ : PState) (pos : Nat) (b : Bool) (l : Nat) :
@@ -70,6 +71,29 @@ theorem syntax_error_not_document (toks : List Token) (eofPos pos : Nat) (b : Bo
   rw [parseToks_complete hd] at h
   cases h
 
+/-! ## NOT LATER: with the blamed token the text is no longer the beginning of any document
+
+`k = |toks| - left` is the index of the token M blames (`syntax_error_blames_token`).  The parser model is deterministic
+and reads left to right with one token of look-ahead (two after a description), so its verdict up to the first error
+depends only on the tokens up to the blamed one (`parseToks_error_local`, GqlProofs/ParserLocal.lean: a prefix-determinism
+theorem for all actions, fuel included); completeness (`parser_complete`) then excludes every continuation.  This holds
+WITHOUT any side condition on D-03b: the leniency of `parseType` makes M accept too much, never reject too early. -/
+
+/-- prefix determinism: M rejects every token list that starts with `toks[0..k]` exactly as it rejects `toks` -/
+theorem syntax_error_prefix_determined (toks : List Token) (eofPos pos : Nat) (b : Bool) (l : Nat)
+    (h : parseToks toks eofPos = .error (.syntax pos b l)) (hl : 0 < l) (rest : List Token) (eofPos' : Nat) :
+    ∃ l', parseToks (toks.take (toks.length - l + 1) ++ rest) eofPos' = .error (.syntax pos b l') :=
+  parseToks_error_local h hl rest eofPos'
+
+/-- **not later**: no continuation of the prefix that INCLUDES the blamed token is a document of the grammar -/
+theorem syntax_error_not_later (toks : List Token) (eofPos pos : Nat) (b : Bool) (l : Nat)
+    (h : parseToks toks eofPos = .error (.syntax pos b l)) (hl : 0 < l) :
+    ¬ ViablePrefix (toks.take (toks.length - l + 1)) := by
+  rintro ⟨rest, eofPos', d, hd⟩
+  obtain ⟨l', g⟩ := parseToks_error_local h hl rest eofPos'
+  rw [parseToks_complete hd] at g
+  cases g
+
 /-! ## Lazy lexing: a parser rejection at token k is reported even if token k+1 is malformed
 
 `parser.Parse` lexes one token ahead (`advance` returns the lexical error of the NEXT token at once), so on a text
@@ -83,21 +107,27 @@ every token sequence followed by a malformed lexeme of every class in LF/CR/CRLF
 /-- the `left` recorded in an error never exceeds the number of tokens: it counts unconsumed tokens -/
 theorem error_left_le (toks : List Token) (eofPos pos : Nat) (b : Bool) (l : Nat)
     (h : parseDocument (initState toks eofPos) = .error (.syntax pos b l)) : l ≤ toks.length :=
-  ((inferInstance : ErrAt parseDocument).err _ _ _ _ h).2
+  ((inferInstance : ErrAt parseDocument).err _ _ _ _ h).1
 
-/-- **ordering**: if M rejects while the current token is still one of the real tokens (`0 < left`) and blames a
-real token, that rejection is reported — the malformed lexeme after `toks` is never looked at -/
+/-- the offset of a syntax error is the start of exactly the token `left` determines: index `|toks| - left`
+(`left = 0`: the EOF offset) -/
+theorem syntax_error_blames_token (toks : List Token) (eofPos pos : Nat) (b : Bool) (l : Nat)
+    (h : parseDocument (initState toks eofPos) = .error (.syntax pos b l)) :
+    l ≤ toks.length ∧ pos = (match toks.drop (toks.length - l) with | t :: _ => t.start | [] => eofPos) :=
+  (inferInstance : ErrAt parseDocument).err _ _ _ _ h
+
+/-- **ordering**: if M rejects and the token it blames is one of the real tokens (`0 < left`), that rejection is
+reported — the malformed lexeme after `toks` is never looked at -/
 theorem parser_rejection_before_lexical_error (toks : List Token) (pos : Nat) (b : Bool) (l : Nat)
-    (h : parseDocument (initState toks (freshEOF toks)) = .error (.syntax pos b l)) (hl : 0 < l)
-    (hp : pos ≠ freshEOF toks) : parseLazy toks = .syntax pos := by
-  simp [parseLazy, h, hl, hp]
+    (h : parseDocument (initState toks (freshEOF toks)) = .error (.syntax pos b l)) (hl : 0 < l) :
+    parseLazy toks = .syntax pos := by
+  simp [parseLazy, h, hl]
 
-/-- conversely the lexical error is reported exactly when M accepts, has consumed every token, or blames the token
-after the last one -/
+/-- conversely the lexical error is reported exactly when M accepts or blames the token after the last one -/
 theorem lexical_error_reported_iff (toks : List Token) :
     parseLazy toks = .lexError ↔
       ((∃ r, parseDocument (initState toks (freshEOF toks)) = .ok r) ∨
-       (∃ pos b l, parseDocument (initState toks (freshEOF toks)) = .error (.syntax pos b l) ∧ (l = 0 ∨ pos = freshEOF toks)) ∨
+       (∃ pos b, parseDocument (initState toks (freshEOF toks)) = .error (.syntax pos b 0)) ∨
        parseDocument (initState toks (freshEOF toks)) = .error .noEOF) := by
   unfold parseLazy
   match hr : parseDocument (initState toks (freshEOF toks)) with
@@ -109,17 +139,9 @@ theorem lexical_error_reported_iff (toks : List Token) :
       split at h
       · cases h
       · rename_i hc
-        refine ⟨pos, b, l, ⟨rfl, rfl, rfl⟩, ?_⟩
-        by_cases hl : l = 0
-        · exact .inl hl
-        · refine .inr (Classical.byContradiction fun hne => hc ⟨Nat.pos_of_ne_zero hl, hne⟩)
-    · rintro ⟨pos', b', l', ⟨rfl, rfl, rfl⟩, hc⟩
-      have : ¬ (0 < l ∧ pos ≠ freshEOF toks) := by
-        rintro ⟨h1, h2⟩
-        rcases hc with rfl | h3
-        · omega
-        · exact h2 h3
-      simp [this]
+        exact ⟨pos, b, rfl, rfl, by omega⟩
+    · rintro ⟨pos', b', rfl, rfl, rfl⟩
+      simp
   | .error .fuel => simp
   | .error .noEOF => simp
 
@@ -153,11 +175,12 @@ theorem lazy_syntax_error_at_real_token (toks : List Token) (pos : Nat) (h : par
     · rename_i hc
       simp only [LazyOut.syntax.injEq] at h
       subst h
-      obtain ⟨⟨k, hk, hpos⟩, _⟩ := (inferInstance : ErrAt parseDocument).err _ _ _ _ hr
-      unfold posAt at hpos
-      simp only [initState] at hpos
-      cases hd : toks.drop k with
-      | nil => rw [hd] at hpos; exact absurd hpos hc.2
+      obtain ⟨hl, hpos⟩ := syntax_error_blames_token toks _ _ _ _ hr
+      cases hd : toks.drop (toks.length - l) with
+      | nil =>
+        have := congrArg List.length hd
+        simp at this
+        omega
       | cons t r =>
         rw [hd] at hpos
         exact ⟨t, List.mem_of_mem_drop (by rw [hd]; simp), hpos⟩
